@@ -12,7 +12,8 @@ META = {
                    "impl.autosave_file at the resumed file. PICKLE: every entry __getstate__ serialises with "
                    "_to_abstract_repr is restored with _from_abstract_repr of the same key, observables are "
                    "re-patched on load, __dict__ is restored wholesale and no driver class has a mutable "
-                   "class-level default (all evolving state is pickled).",
+                   "class-level default (all evolving state is pickled). "
+                   "PICKLE-whole: __getstate__ returns a copy of the whole __dict__ with no entry removed and __setstate__ recomputes nothing besides the transformed entries.",
     "not_decided": "value equality of resumed and uninterrupted runs; distribution equality for noisy runs; "
                    "re-aggregation of earlier trajectories of a multi-trajectory run (observation O2)",
     "trusted_base": ["CPython ast", "sa.interp", "PERM tables (sa/rules/perm.py)"],
